@@ -76,7 +76,10 @@ type producer interface {
 	close()
 }
 
-var errStreamTimeout = errors.New("timed out waiting for the next stream message")
+var (
+	errStreamTimeout = errors.New("timed out waiting for the next stream message")
+	errStreamDead    = errors.New("the stream is open, the active holds nothing in any queue, and no message arrives")
+)
 
 var fixedStamp = time.Unix(1_700_000_000, 0).UTC()
 
@@ -302,16 +305,34 @@ func (p *realProducer) attach() error {
 	return nil
 }
 
+// next returns the next message of the attached stream.  The active of this layer is not started and
+// put/del broadcast synchronously, so a pushed change is in a client channel when the push returns, or
+// nowhere.  If nothing is queued on the active, the stream is open and nothing arrives over a whole
+// pollWatch run, the message will never come (errStreamDead: a verdict); an expired wait without such a
+// run is errStreamTimeout (inconclusive).
 func (p *realProducer) next() ([]byte, error) {
-	select {
-	case b, ok := <-p.msgs:
-		if !ok {
-			return nil, errors.New("stream closed by the active")
+	var b []byte
+	var closed bool
+	pr := pollWatch(func() bool {
+		select {
+		case m, ok := <-p.msgs:
+			b, closed = m, !ok
+			return true
+		default:
+			return false
 		}
-		return b, nil
-	case <-time.After(waitTimeout):
+	}, func() (bool, string) {
+		return p.act.VerifSSEBacklog() == 0, fmt.Sprint(p.act.VerifSSEClientIDs())
+	})
+	switch {
+	case pr == pollDead:
+		return nil, errStreamDead
+	case pr == pollExpired:
 		return nil, errStreamTimeout
+	case closed:
+		return nil, errors.New("stream closed by the active")
 	}
+	return b, nil
 }
 
 func (p *realProducer) detach() {
@@ -637,6 +658,11 @@ func (w *world) apply(o op) {
 		w.pending = w.pending[1:]
 		data, err := w.prod.next()
 		if err != nil {
+			if errors.Is(err, errStreamDead) {
+				w.fail(sigMsgStableDead, "change %s was pushed while the stream was connected; the stream stays open, the active holds nothing in any queue (registered stream clients: %v) and the change never arrives (>= %v, >= %d samples)",
+					c, w.prod.(*realProducer).act.VerifSSEClientIDs(), deadWindow, deadMinSamples)
+				return
+			}
 			if errors.Is(err, errStreamTimeout) {
 				setInconclusive("no stream message within %v although %s was pushed while connected", waitTimeout, c)
 				w.dead = true
